@@ -172,9 +172,9 @@ Props/C05.vos Props/C05.vok Props/C05.required_vos: Props/C05.v Base/Prelude.vos
 Props/C13.vo Props/C13.glob Props/C13.v.beautified Props/C13.required_vo: Props/C13.v Base/Prelude.vo Model/Strategy.vo Model/LB.vo Proofs/LBProofs.vo Proofs/AccountingProofs.vo
 Props/C13.vio: Props/C13.v Base/Prelude.vio Model/Strategy.vio Model/LB.vio Proofs/LBProofs.vio Proofs/AccountingProofs.vio
 Props/C13.vos Props/C13.vok Props/C13.required_vos: Props/C13.v Base/Prelude.vos Model/Strategy.vos Model/LB.vos Proofs/LBProofs.vos Proofs/AccountingProofs.vos
-Props/C11.vo Props/C11.glob Props/C11.v.beautified Props/C11.required_vo: Props/C11.v Base/Prelude.vo Model/Strategy.vo Model/LB.vo Proofs/LBProofs.vo Model/Conc.vo Proofs/ConcProofs.vo
-Props/C11.vio: Props/C11.v Base/Prelude.vio Model/Strategy.vio Model/LB.vio Proofs/LBProofs.vio Model/Conc.vio Proofs/ConcProofs.vio
-Props/C11.vos Props/C11.vok Props/C11.required_vos: Props/C11.v Base/Prelude.vos Model/Strategy.vos Model/LB.vos Proofs/LBProofs.vos Model/Conc.vos Proofs/ConcProofs.vos
+Props/C11.vo Props/C11.glob Props/C11.v.beautified Props/C11.required_vo: Props/C11.v Base/Prelude.vo Model/Strategy.vo Model/LB.vo Proofs/LBProofs.vo Model/Conc.vo Proofs/ConcProofs.vo Proofs/ListingProofs.vo
+Props/C11.vio: Props/C11.v Base/Prelude.vio Model/Strategy.vio Model/LB.vio Proofs/LBProofs.vio Model/Conc.vio Proofs/ConcProofs.vio Proofs/ListingProofs.vio
+Props/C11.vos Props/C11.vok Props/C11.required_vos: Props/C11.v Base/Prelude.vos Model/Strategy.vos Model/LB.vos Proofs/LBProofs.vos Model/Conc.vos Proofs/ConcProofs.vos Proofs/ListingProofs.vos
 Props/C02.vo Props/C02.glob Props/C02.v.beautified Props/C02.required_vo: Props/C02.v Base/Prelude.vo Base/Wrap.vo Model/Hash.vo Model/Strategy.vo Model/LB.vo Proofs/StrategyProofs.vo Proofs/LBProofs.vo Proofs/FailoverProofs.vo Gen/HealthGen.vo Proofs/HealthRefine.vo
 Props/C02.vio: Props/C02.v Base/Prelude.vio Base/Wrap.vio Model/Hash.vio Model/Strategy.vio Model/LB.vio Proofs/StrategyProofs.vio Proofs/LBProofs.vio Proofs/FailoverProofs.vio Gen/HealthGen.vio Proofs/HealthRefine.vio
 Props/C02.vos Props/C02.vok Props/C02.required_vos: Props/C02.v Base/Prelude.vos Base/Wrap.vos Model/Hash.vos Model/Strategy.vos Model/LB.vos Proofs/StrategyProofs.vos Proofs/LBProofs.vos Proofs/FailoverProofs.vos Gen/HealthGen.vos Proofs/HealthRefine.vos
@@ -238,3 +238,6 @@ Proofs/LimiterRefine.vos Proofs/LimiterRefine.vok Proofs/LimiterRefine.required_
 Proofs/HealthRefine.vo Proofs/HealthRefine.glob Proofs/HealthRefine.v.beautified Proofs/HealthRefine.required_vo: Proofs/HealthRefine.v Base/Prelude.vo Model/Strategy.vo Model/LB.vo Gen/HealthGen.vo
 Proofs/HealthRefine.vio: Proofs/HealthRefine.v Base/Prelude.vio Model/Strategy.vio Model/LB.vio Gen/HealthGen.vio
 Proofs/HealthRefine.vos Proofs/HealthRefine.vok Proofs/HealthRefine.required_vos: Proofs/HealthRefine.v Base/Prelude.vos Model/Strategy.vos Model/LB.vos Gen/HealthGen.vos
+Proofs/ListingProofs.vo Proofs/ListingProofs.glob Proofs/ListingProofs.v.beautified Proofs/ListingProofs.required_vo: Proofs/ListingProofs.v Base/Prelude.vo Model/Conc.vo Proofs/ConcProofs.vo
+Proofs/ListingProofs.vio: Proofs/ListingProofs.v Base/Prelude.vio Model/Conc.vio Proofs/ConcProofs.vio
+Proofs/ListingProofs.vos Proofs/ListingProofs.vok Proofs/ListingProofs.required_vos: Proofs/ListingProofs.v Base/Prelude.vos Model/Conc.vos Proofs/ConcProofs.vos
